@@ -51,7 +51,9 @@ def exp(a):
     return ("exp", a)
 
 
-SYMBOLS = {"self.lmbda": "L", "self.shift": "S", "self._lmbda": "L", "self._shift": "S"}
+SYMBOLS = {"self.lmbda": "L", "self.shift": "S", "self._lmbda": "L", "self._shift": "S", "self.len_rescaled": "l", "np.pi": "PI", "math.pi": "PI"}
+FUNCS = {"np.arctan": "atan", "np.tan": "tan", "sps.erf": "erf", "sps.erfinv": "erfinv", "sps.gamma": "gamma", "math.atan": "atan", "math.tan": "tan"}
+INVERSE = {"atan": "tan", "tan": "atan", "erf": "erfinv", "erfinv": "erf"}
 
 
 def from_ast(e, x_names, sign, subst=None):
@@ -95,6 +97,7 @@ def from_ast(e, x_names, sign, subst=None):
         if fn in ("np.subtract",) and len(args) == 2:
             return add(args[0], neg(args[1]))
         if fn in ("np.divide", "np.true_divide") and len(args) == 2:
+            # `out=` / `where=` only say what to store where the quotient is not defined (documented limit value): the formula is the quotient
             return mul(args[0], pw(args[1], num(-1)))
         if fn in ("np.log", "math.log") and len(args) == 1:
             return log(args[0])
@@ -106,6 +109,8 @@ def from_ast(e, x_names, sign, subst=None):
             return add(exp(args[0]), num(-1))
         if fn in ("np.sqrt",) and len(args) == 1:
             return pw(args[0], num(Fraction(1, 2)))
+        if fn in FUNCS and len(args) == 1:
+            return ("fn", FUNCS[fn], args[0])
         if fn in ("np.abs", "np.absolute", "abs") and len(args) == 1:
             if args[0] == sym("x"):
                 return sym("x") if sign > 0 else neg(sym("x"))
@@ -124,6 +129,8 @@ def depends(t, name="x"):
         return t[1] == name
     if t[0] == "num":
         return False
+    if t[0] == "fn":
+        return depends(t[2], name)
     return any(depends(c, name) for c in t[1:])
 
 
@@ -132,6 +139,8 @@ def substitute(t, name, value):
         return value if t[1] == name else t
     if t[0] == "num":
         return t
+    if t[0] == "fn":
+        return ("fn", t[1], substitute(t[2], name, value))
     return (t[0],) + tuple(substitute(c, name, value) for c in t[1:])
 
 
@@ -150,6 +159,17 @@ def diff(t):
         return mul(diff(t[1]), pw(t[1], num(-1)))
     if k == "exp":
         return mul(t, diff(t[1]))
+    if k == "fn":
+        f, u = t[1], t[2]
+        if not depends(u):
+            return num(0)
+        if f == "atan":
+            return mul(diff(u), pw(add(num(1), pw(u, num(2))), num(-1)))
+        if f == "tan":
+            return mul(diff(u), add(num(1), pw(t, num(2))))
+        if f == "erf":
+            return mul(mul(mul(num(2), pw(sym("PI"), num(Fraction(-1, 2)))), exp(neg(pw(u, num(2))))), diff(u))
+        raise DiffError("cannot differentiate %s" % f)
     if k == "pow":
         a, b = t[1], t[2]
         if not depends(b):
@@ -200,6 +220,7 @@ def vadd(a, b):
 _EXP = {}  # exponent key -> Value (exponents are stored by key inside term keys)
 _ATOM = {}  # key of an atomic (multi-term) base -> its Value
 _LOG = {}  # key of a logarithm factor -> Value of its argument
+_FN = {}  # key of a function factor (atan, tan, erf, erfinv, gamma) -> (function, Value of its argument)
 
 
 def _ekey(v):
@@ -220,8 +241,40 @@ def _wrap(v):
     return {((key, _ekey(vconst(1))),): Fraction(sg)}
 
 
+DOMAIN = [None]  # (lo, hi) of the variable x as Fractions / None for unbounded; set by the rule for the branch it examines
+
+
+def set_domain(lo=None, hi=None):
+    DOMAIN[0] = (None if lo is None else Fraction(lo), None if hi is None else Fraction(hi))
+
+
 def _lead_sign(v):
-    """sign convention for an atomic sum: the coefficient of its first term (in key order) is positive, so that (2 - L) and (L - 2) share one atom"""
+    """Orientation of an atomic sum, so that (2 - L) and (L - 2) share one atom.  A sum that is affine in x with numeric coefficients is
+    oriented to be POSITIVE on the domain of x when it has one sign there (the identities (A**2)**(1/2) = A, log/exp and power merging
+    are those of positive bases); otherwise the coefficient of its first term (in key order) is made positive."""
+    dom = DOMAIN[0]
+    if dom is not None:
+        c0, c1, affine = Fraction(0), Fraction(0), True
+        for k, c in v.items():
+            if k == ():
+                c0 = c
+            elif len(k) == 1 and k[0][0] == "x" and as_const(_EXP[k[0][1]]) == 1:
+                c1 = c
+            else:
+                affine = False
+        if affine and c1 != 0:
+            lo, hi = dom
+            ends = []
+            for e_, at_inf in ((lo, -1), (hi, 1)):
+                if e_ is None:
+                    ends.append(1 if c1 * at_inf > 0 else -1)
+                else:
+                    val = c0 + c1 * e_
+                    ends.append(0 if val == 0 else (1 if val > 0 else -1))
+            if all(e_ >= 0 for e_ in ends) and any(e_ > 0 for e_ in ends):
+                return 1
+            if all(e_ <= 0 for e_ in ends) and any(e_ < 0 for e_ in ends):
+                return -1
     k0 = sorted(v, key=str)[0]
     return 1 if v[k0] > 0 else -1
 
@@ -306,13 +359,11 @@ def vpow(a, b):
             elif c > 0:
                 res = vmul(res, {(("#%s" % c, _ekey(b)),): Fraction(1)})
             else:
-                raise DiffError("negative number to a symbolic power")
+                # (negative coefficient * factors) ** non-integer: one atomic base (e.g. sqrt(-log(1 - u)))
+                key = "(%s)" % vtext(a)
+                _ATOM[key] = a
+                return {((key, _ekey(b)),): Fraction(1)}
         return res
-    if cb is not None and cb.denominator == 1 and 2 <= cb <= 4:
-        out = a
-        for _ in range(int(cb) - 1):
-            out = vmul(out, a)
-        return out
     coef = Fraction(1)
     if cb is not None and cb.denominator == 1 and _lead_sign(a) < 0:
         a = {k: -c for k, c in a.items()}
@@ -393,6 +444,33 @@ def canon(t):
                 return dict(_EXP[tk[0][1]])
         key = "log(%s)" % vtext(a)
         _LOG[key] = a
+        return {((key, _ekey(vconst(1))),): Fraction(1)}
+    if k == "fn":
+        f, a = t[1], canon(t[2])
+        if f == "gamma":
+            c = as_const(a)
+            if c is not None and c > 0 and (2 * c).denominator == 1:
+                # Gamma at positive integers and half-integers, in closed form
+                if c.denominator == 1:
+                    v = Fraction(1)
+                    for i in range(1, int(c)):
+                        v *= i
+                    return vconst(v)
+                v = Fraction(1)
+                x = Fraction(1, 2)
+                while x < c:
+                    v *= x
+                    x += 1
+                return vmul(vconst(v), vpow(canon(sym("PI")), vconst(Fraction(1, 2))))
+        if f in ("atan", "tan", "erf", "erfinv") and not a:
+            return {}  # f(0) = 0 for all four
+        # f(f^-1(A)) = A
+        if len(a) == 1:
+            (tk, c), = a.items()
+            if c == 1 and len(tk) == 1 and tk[0][0] in _FN and _FN[tk[0][0]][0] == INVERSE.get(f) and as_const(_EXP[tk[0][1]]) == 1:
+                return dict(_FN[tk[0][0]][1])
+        key = "%s(%s)" % (f, vtext(a))
+        _FN[key] = (f, a)
         return {((key, _ekey(vconst(1))),): Fraction(1)}
     raise DiffError("canon %s" % k)
 
